@@ -84,7 +84,8 @@ def _damage_set(f):
             out.append([k, f.random(), f.choice(["-1", "-1", "-16", "00", "+1", "FF"])])
         elif k == "hdr_ins":
             out.append([k, f.random(), f.choice(HDR_NAMES), f.choice(["##: ", "##:", "#> ", "#>"]),
-                        f.choice(["x", "", "0x12", "01 02", "A=b", "Yes"])])
+                        f.choice(["x", "", "0x12", "01 02", "A=b", "Yes", "0x-12", "0x123456789", "-1",
+                                  "70000 BALTECHFW 1.02.03", "1053 BALTECHFW 1.300.00", "FILTER=0100", "VERSIONDESC=01"])])
         elif k == "stale_tail":
             out.append([k, f.choice(["00\n", "4246330000\n", "\n\nAB\n", ":0000FF00\n", "k: v\n"])])
         else:
